@@ -448,7 +448,9 @@ type storeHandle struct {
 }
 
 func scratchDir() string {
-	d, err := os.MkdirTemp("", "wverif-")
+	// under the run's own directory when the check names one (removed with it, also after a kill); the system's
+	// temporary directory otherwise
+	d, err := os.MkdirTemp(os.Getenv("VERIF_SCRATCH"), "wverif-")
 	if err != nil {
 		panic(err)
 	}
